@@ -136,3 +136,51 @@ pub fn consume(it: &It) -> u32 {
         _ => 0,
     }
 }
+
+// ---- BIT controls: a packed two-field word; `bitbad::set_b` forgets to clear the old payload
+pub mod bitgood {
+    pub struct Pk(Option<u8>);
+    impl Pk {
+        pub fn a_is_some(&self) -> bool { match self.0 { Some(x) => x & 0x80 == 0x80, None => false } }
+        pub fn b_is_some(&self) -> bool { match self.0 { Some(x) => x & 0x40 == 0x40, None => false } }
+        pub fn get_a(&self) -> Option<u8> { if self.a_is_some() { Some((self.0.unwrap() >> 3) & 0b111) } else { None } }
+        pub fn get_b(&self) -> Option<u8> { if self.b_is_some() { Some(self.0.unwrap() & 0b111) } else { None } }
+        pub fn set_a(&mut self, m: Option<u8>) {
+            match m {
+                Some(m) => if let Some(d) = &mut self.0 { *d |= 0x80; *d = (*d & !0x38) | ((m & 7) << 3); } else { self.0 = Some(0x80 | ((m & 7) << 3)) },
+                None => if let Some(d) = &mut self.0 { *d &= !(0x80 | 0x38) },
+            }
+            if matches!(self.0, Some(0)) { self.0 = None; }
+        }
+        pub fn set_b(&mut self, m: Option<u8>) {
+            match m {
+                Some(m) => if let Some(d) = &mut self.0 { *d |= 0x40; *d = (*d & !0x07) | (m & 7); } else { self.0 = Some(0x40 | (m & 7)) },
+                None => if let Some(d) = &mut self.0 { *d &= !(0x40 | 0x07) },
+            }
+            if matches!(self.0, Some(0)) { self.0 = None; }
+        }
+    }
+}
+pub mod bitbad {
+    pub struct Pk(Option<u8>);
+    impl Pk {
+        pub fn a_is_some(&self) -> bool { match self.0 { Some(x) => x & 0x80 == 0x80, None => false } }
+        pub fn b_is_some(&self) -> bool { match self.0 { Some(x) => x & 0x40 == 0x40, None => false } }
+        pub fn get_a(&self) -> Option<u8> { if self.a_is_some() { Some((self.0.unwrap() >> 3) & 0b111) } else { None } }
+        pub fn get_b(&self) -> Option<u8> { if self.b_is_some() { Some(self.0.unwrap() & 0b111) } else { None } }
+        pub fn set_a(&mut self, m: Option<u8>) {
+            match m {
+                Some(m) => if let Some(d) = &mut self.0 { *d |= 0x80; *d = (*d & !0x38) | ((m & 7) << 3); } else { self.0 = Some(0x80 | ((m & 7) << 3)) },
+                None => if let Some(d) = &mut self.0 { *d &= !0x80 },
+            }
+            if matches!(self.0, Some(0)) { self.0 = None; }
+        }
+        pub fn set_b(&mut self, m: Option<u8>) {
+            match m {
+                Some(m) => if let Some(d) = &mut self.0 { *d |= 0x40; *d |= m & 7; } else { self.0 = Some(0x40 | (m & 7)) },
+                None => if let Some(d) = &mut self.0 { *d &= !(0x40 | 0x07) },
+            }
+            if matches!(self.0, Some(0)) { self.0 = None; }
+        }
+    }
+}
